@@ -1,4 +1,4 @@
-import RpycModel.Vinegar.Load
+import RpycModel.Vinegar.Table
 /-
 C09 — remote exceptions: same class, same data, safely.
 Only the property theorems and their non-vacuity examples (namespace Rpyc.Props.C09); helper lemmas are in
@@ -22,14 +22,19 @@ def BuiltinRec (e : ExcRec) : Prop :=
     ∧ e.walkRaises = none
 
 /-- what the property demands of the object that reaches the requester's `except` clause.
-`cls`/`args`: same built-in class, arguments with everything brine cannot carry replaced by its repr.
+"same class": the object's type is (a cached subclass made by `_get_exception_class` of) the class named — it IS an
+instance of that class, so ordinary `except` clauses work — and carries its `__name__` and `__module__` (`ObjType`).
+"same immutable arguments": *immutable* is what brine carries by value — exactly the twelve types None, NotImplemented,
+Ellipsis, bool, int, float, complex, bytes, str and tuple / frozenset / slice of such (by exact type); everything else —
+lists and dicts, but also an IntEnum member, a Fraction, an instance of a str subclass, a tuple holding one — arrives as its
+`repr()` text (`sendable`).
 `attrs`: every public, immutable data attribute has the same value (extras are allowed).
 `tb`/`ver`: the remote traceback / version text when, and only when, the sender's switches allow — else the markers
 (`tbShown`: the formatted text; the "unavailable" literal if the traceback module itself fails on this exception).
 A bare `StopIteration` (the marker path, `fastPath`) is held to class and arguments only: it arrives as a fresh
 `StopIteration()` whose class-level attributes the model does not describe and which carries no traceback. -/
 def Faithful (s : SendCfg) (e : ExcRec) (o : ExcObj) : Prop :=
-  o.cls = .real (.str e.cls.modname) e.cls.name
+  o.type = ⟨.real (.str e.cls.modname) e.cls.name, .real (.str e.cls.modname) e.cls.name⟩
     ∧ o.args = e.args.map sendable
     ∧ (fastPath e = false → ∀ d ∈ e.dir, ∀ a, d.isData = true → d.value = some a → skipped d.name = false →
         (d.name == Gen.Vinegar.argsName) = false → dumpable a.val = true → o.get d.name = some a.val)
@@ -64,7 +69,7 @@ theorem stopiteration_bare (s : SendCfg) (r : RecvCfg) (env : Env) (e : ExcRec) 
       ∧ isStopIteration e.cls = true ∧ e.args = [] := by
   have hd : dumpExc s e = .ok (.int Gen.Vinegar.excStopIteration) := by simp [dumpExc, hf]
   have hl : loadExc r env (.int Gen.Vinegar.excStopIteration) = ⟨[], .ok .stopIterationClass⟩ := by
-    simp [loadExc, isStopMarker]
+    simp [loadExc_eq_core, loadCore, isStopMarker]
   refine ⟨hd, by rw [hl]; rfl, by rw [hl], ?_, ?_⟩
   · simp only [fastPath, Bool.and_eq_true] at hf; exact hf.1.2
   · simp only [fastPath, gen_fastPath_shape.2, Bool.and_eq_true, Bool.not_true, Bool.false_or] at hf
@@ -113,7 +118,7 @@ theorem C09_partial (s : SendCfg) (r : RecvCfg) (env : Env) (e : ExcRec)
     refine ⟨_, hd, _, hsees, ?_, ?_, ?_, ?_, ?_⟩
     · have hn : e.cls.name = stopIterationName := by
         simp only [isStopIteration, Bool.and_eq_true] at hstop; simpa using hstop.2
-      simp [builtinStopIteration, hb.2.1, hn]
+      simp [builtinStopIteration, hb.2.1, hn, ExcObj.type, getExceptionClass]
     · simp [hargs]
     · intro h; rw [hf] at h; cases h
     · intro h; rw [hf] at h; cases h
@@ -129,6 +134,59 @@ theorem needsArgs_raises (s : SendCfg) (r : RecvCfg) (env : Env) (e : ExcRec)
   rw [← hb.2.1] at hres
   rw [loadExc_record s r env e _ true _ hres, instantiate_needsArgs]
   exact ⟨dumpExc_ok s e hnf hb.2.2.2.2, rfl, rfl⟩
+
+/-- **C09 for every built-in exception class of this interpreter** (`Gen.Vinegar.builtinExcTable`, measured and regenerated on
+every run) whose `__new__` takes no arguments, with the receiver being this interpreter (`tableEnv`): no environment
+hypothesis is left — `Known` and `Writable` are discharged from the table (`known_of_mem`, `writable_of_recOf`); what remains
+(`RecOf`) says that `e` is a record of that class as Python presents one. -/
+theorem C09_partial_interpreter (row : Row) (hrow : row ∈ Gen.Vinegar.builtinExcTable) (hnn : row.2.1 = false)
+    (s : SendCfg) (r : RecvCfg) (e : ExcRec) (he : RecOf row e) :
+    ∃ p, dumpExc s e = .ok p ∧ ∃ o, requesterSees (loadExc r tableEnv p) = .raised o ∧ Faithful s e o := by
+  have hk := known_of_mem row hrow
+  rw [hnn] at hk
+  have hw := writable_of_recOf row e hrow he
+  obtain ⟨hcls, hargs, hnodup, hwalk, _⟩ := he
+  have hname : e.cls.name = row.1 := by rw [hcls]
+  rw [← hname] at hk
+  exact C09_partial s r tableEnv e ⟨by rw [hcls], by rw [hcls], hargs, hnodup, hwalk⟩ hk hw
+
+/-- the classes of this interpreter left out by `C09_partial_interpreter` are at most the two exception-group classes
+(the known finding); a new class with a `__new__` that needs arguments breaks this -/
+theorem needsArgs_classes_known :
+    (Gen.Vinegar.builtinExcTable.filter (·.2.1)).all
+      (fun r => [[66, 97, 115, 101, 69, 120, 99, 101, 112, 116, 105, 111, 110, 71, 114, 111, 117, 112],
+                 [69, 120, 99, 101, 112, 116, 105, 111, 110, 71, 114, 111, 117, 112]].contains r.1) = true := by decide
+
+/-- **built-in at the sender, unknown at the receiver** (another interpreter version): the generic stand-in named
+`builtins.<name>`, under every switch setting, with the arguments, attributes, traceback and version text of the original -/
+theorem builtin_unknown_at_receiver (s : SendCfg) (r : RecvCfg) (env : Env) (e : ExcRec)
+    (hb : BuiltinRec e) (hnf : fastPath e = false) (hloaded : env.loaded (.str Gen.Vinegar.exceptionsModule) = true)
+    (h1 : (env.builtinAttr e.cls.name).isExc = false)
+    (h2 : (env.modAttr (.str Gen.Vinegar.exceptionsModule) e.cls.name).isExc = false)
+    (hname : typeNameCheck (Gen.Vinegar.exceptionsModule ++ [46] ++ e.cls.name) = .ok ())
+    (hw : Writable env (.generic (Gen.Vinegar.exceptionsModule ++ [46] ++ e.cls.name)) e) :
+    dumpExc s e = .ok (recordPayload s e (.str (tbShown s e)))
+      ∧ loadExc r env (recordPayload s e (.str (tbShown s e)))
+        = ⟨[.new (.generic (Gen.Vinegar.exceptionsModule ++ [46] ++ e.cls.name))],
+           .ok (.exc (received s e (.generic (Gen.Vinegar.exceptionsModule ++ [46] ++ e.cls.name))))⟩ := by
+  obtain ⟨_, hmod, _, _, hwalk⟩ := hb
+  have hres : resolveClass r env (.str e.cls.modname) (.str e.cls.name)
+      = .ok (.generic (Gen.Vinegar.exceptionsModule ++ [46] ++ e.cls.name), false) := by
+    rw [hmod]; exact resolveClass_builtin_unknown r env e.cls.name h1 h2 hname
+  have hl : env.loaded (.str e.cls.modname) = true := by rw [hmod]; exact hloaded
+  have hev : importEvents r env (.str e.cls.modname) = [] := by simp [importEvents, importAttempted, hl]
+  refine ⟨dumpExc_ok s e hnf hwalk, ?_⟩
+  rw [loadExc_record s r env e _ false _ hres, instantiate_ok env _ _ _ _ _ _ (build_record env s e _ hw), hev]
+  rfl
+
+/-- what `str()` / `repr()` of the received object shows (`Derived.__str__`): the class's own text, then the marker line
+numbered 1 + the markers already inside the traceback text, then the remote traceback text (or its marker) -/
+theorem received_str (s : SendCfg) (e : ExcRec) (cls : ClsRef) (base : Str) :
+    (received s e cls).str (.ok base)
+      = .ok (base ++ Gen.Vinegar.remoteLineStart ++ [40]
+              ++ natDigits (countSub Gen.Vinegar.remoteLineStart (tbShown s e) + 1) ++ [41]
+              ++ Gen.Vinegar.remoteLineEnd ++ tbShown s e) := by
+  simp [ExcObj.str, received_get_tb, derivedStr]
 
 /-! ### the witness of the known finding -/
 
@@ -261,7 +319,10 @@ theorem no_import_by_default (env : Env) (payload m : Val) :
   revert this
   decide
 
-/-- **no_init**: whatever the payload and whatever the switches, no constructor runs -/
+/-- **no_init**: whatever the payload and whatever the switches, no constructor runs.  The model emits a constructor event
+exactly when the generator's canary probe sees `__init__` run (`instantiationEvent`, `Gen.Vinegar.instantiatesByNew`), so this
+rests on that measured fact (`gen_instantiatesByNew`), on `loader_calls_allowed` (no call of a local name or expression in
+`load`), and on the correspondence's `__init__` canaries -/
 theorem no_init (r : RecvCfg) (env : Env) (payload : Val) (c : ClsRef) :
     Event.init c ∉ (loadExc r env payload).events :=
   fun h => loadExc_events r env payload _ h
@@ -281,7 +342,8 @@ theorem outcome_allowed (r : RecvCfg) (env : Env) (payload : Val) :
     | stopIterationClass => exact Or.inr (Or.inl rfl)
     | strExc t =>
       refine Or.inr (Or.inr (Or.inl ⟨t, rfl, ?_⟩))
-      unfold loadExc at h
+      rw [loadExc_eq_core] at h
+      unfold loadCore at h
       split at h
       · cases h
       · split at h
@@ -319,16 +381,23 @@ theorem hostile_payload_contained (r : RecvCfg) (env : Env) (payload : Val) :
     simp only [hi, Bool.false_eq_true, ↓reduceIte] at hnn
     exact Or.inr ⟨m, c, nn, rfl, hnn.1, hnn.2⟩
 
-/-- `instantiate_oldstyle_exceptions` is read by `_unbox_exc` and changes nothing (`ClassType is type`) -/
+/-- `instantiate_oldstyle_exceptions` is read by `_unbox_exc` and changes nothing: measured by the generator on probe records
+under both settings (`Gen.Vinegar.oldstyleSwitchInert`, through `loadExc_eq_core`); `loadExc` reads the switch and would decline
+to answer were that measurement to change -/
 theorem oldstyle_switch_irrelevant (r : RecvCfg) (env : Env) (payload : Val) (x : Bool) :
-    loadExc { r with instOldstyle := x } env payload = loadExc r env payload := rfl
+    loadExc { r with instOldstyle := x } env payload = loadExc r env payload := by
+  rw [loadExc_eq_core, loadExc_eq_core]
+  rfl
 
 /-! ### ties to the source (generated; each breaks when the code moves) -/
 
-/-- `load` and `_get_exception_class` call nothing the model has no step for: in particular no `cls(...)` -/
+/-- `load` and the functions it uses (`_get_exception_class` among them) call nothing outside the allow-lists written in
+`Vinegar/Model.lean` (`loadCallsAllowed`, `derivedCallsAllowed`) — in particular no `cls(...)` —, and the probe class's
+`__init__` canary stayed silent -/
 theorem loader_calls_allowed :
-    Gen.Vinegar.loadCalls.all (fun c => Gen.Vinegar.loadCallsAllowed.contains c) = true
-      ∧ Gen.Vinegar.derivedCalls.all (fun c => Gen.Vinegar.derivedCallsAllowed.contains c) = true := by decide
+    Gen.Vinegar.loadCalls.all (fun c => loadCallsAllowed.contains c) = true
+      ∧ Gen.Vinegar.derivedCalls.all (fun c => derivedCallsAllowed.contains c) = true
+      ∧ Gen.Vinegar.derivedCalls ≠ [] ∧ Gen.Vinegar.instantiatesByNew = true := by decide
 
 /-- the StopIteration marker path exists and requires empty arguments (the repair of the lost generator value) -/
 theorem fast_path_requires_no_args :
